@@ -7,7 +7,8 @@ Open Scope list_scope.
 Record case := Case {
   k_parse : bool;                        (* true: S3 cassette ([extract_parse]); false: in-memory / file ([extract_split]) *)
   k_beh : list (rid * behaviour);        (* behaviour of every stored recording; any other id is BMissing *)
-  k_fail : list cat;                     (* categories whose tuning cannot be created *)
+  k_fail : list (cat * err);             (* categories whose tuning cannot be created, each with the (canonical text
+                                            of the) exception its tuner ends in: any class, any arguments, none *)
   k_lookups : list (cat * list rid);     (* what the cassette's lookup answered for each category it was asked *)
   k_keep : bool;
   k_ids : option (list rid);
@@ -24,12 +25,14 @@ Fixpoint assoc {A} (k : str) (l : list (str * A)) : option A :=
 
 Definition extract_of (c : case) : rid -> res cat := if k_parse c then extract_parse else extract_split.
 
-(** the harness' tuner: tags are role ':' category; failing categories raise TunerError *)
+(** the harness' tuner: tags are role ':' category; a failing category raises the exception the case names for it *)
 Definition tuning_of (c : cat) : tuning :=
   Tuning (U"P:" ++ c) (U"E:" ++ c) (U"C:" ++ c) (U"D:" ++ c).
 Definition tuner_of (c : case) (x : cat) : res tuning :=
-  if existsb (str_eqb x) (k_fail c) then Raises (U"TunerError(cannot tune " ++ x ++ U")")
-  else Ans (tuning_of x).
+  match assoc x (k_fail c) with
+  | Some e => Raises e
+  | None => Ans (tuning_of x)
+  end.
 Definition lookup_of (c : case) (x : cat) : res (list rid) :=
   match assoc x (k_lookups c) with
   | Some l => Ans l
